@@ -797,7 +797,9 @@ class ChainOracles(WalkOracles):
             # same side (the element's reverse complement follows it).  Rings and hairpins are where a walk meets an element it has already
             # placed: whoever is responsible for taking placed elements out of the availability set must have done so by then.
             self.ring = len(self.line) >= 2 and self.choose("ring", (False, True))
-            kinds = (0, 2) if self.stranded else (0, 2, "hp")
+            # ... or — unstranded only — the end's one extension leads to a node that is a single palindromic k-mer ("pal"): every walk must stop in
+            # front of it and report the extension towards it
+            kinds = (0, 2) if self.stranded else (0, 2, "hp", "pal")
             self.ends = (0, 0) if self.ring else (self.choose("lend", kinds), self.choose("rend", kinds))
         return self.line
 
@@ -816,7 +818,12 @@ class ChainOracles(WalkOracles):
             return line[i]
         if self.ends[0 if line_side == LEFT else 1] == "hp":
             return x
+        if self.ends[0 if line_side == LEFT else 1] == "pal" and not str(x).startswith("P"):
+            return "PL" if line_side == LEFT else "PR"
         return None
+
+    def known(self, x):
+        return x in self.setup() or x in ("PL", "PR")
 
     def is_hairpin(self, x, stored_side):
         line = self.setup()
@@ -829,6 +836,8 @@ class ChainOracles(WalkOracles):
     def exts_byte(self, x):
         line = self.setup()
         m = 0
+        if str(x).startswith("P"):
+            return 0x22         # the palindromic k-mer beyond an end: one extension on either side
         for line_side in (LEFT, RIGHT):
             sd = self.stored_side(x, line_side)
             if self.neighbour(x, sd) is not None:
@@ -858,6 +867,8 @@ class ChainOracles(WalkOracles):
                 elif 0 <= j < n:
                     allowed.add(((line[i],), (line[j],)))
             allowed.add(((line[i],), (line[i],)))
+        for e_, pn in ((line[0], "PL"), (line[-1], "PR")):
+            allowed.add(((e_,), (pn,)))
         if not self.ring:
             joins = set()
             for i in range(i0, 0, -1):
@@ -903,7 +914,7 @@ class ChainOracles(WalkOracles):
         if path.startswith("graph::Node::<") or path.startswith("graph::Node<"):
             n = recv(it, args[0])
             x = self.id_of(n.fields[0]) if isinstance(n, Adt) and n.fields else None
-            if x is None or x not in self.setup():
+            if x is None or not self.known(x):
                 raise Undecided("a node that is not on the scripted line (%r)" % (n,))
             if name == "sequence":
                 return Opaque("DnaStringSlice", {"seq"}, {"node": x})
@@ -912,7 +923,7 @@ class ChainOracles(WalkOracles):
             if name == "data":
                 return self.data_ref(x)
             if name == "len":
-                return Int(64, False, val=self.K + 2)
+                return Int(64, False, val=self.K if str(x).startswith("P") else self.K + 2)
         if tr in ("Vmer", "Mer") and args and isinstance(recv(it, args[0]), Opaque) and "seq" in tags_of(recv(it, args[0])):
             x = recv(it, args[0]).info.get("node")
             side = None
@@ -925,11 +936,16 @@ class ChainOracles(WalkOracles):
             elif name == "get_kmer" and isinstance(args[1], Int) and args[1].is_conc():
                 side = LEFT if args[1].val == 0 else (RIGHT if args[1].val == 2 else None)
             elif name == "len":
-                return Int(64, False, val=self.K + 2)
+                return Int(64, False, val=self.K if str(x).startswith("P") else self.K + 2)
             if side is not None:
                 return Opaque("K", {"term"}, {"node": x, "side": side})
             raise Undecided("%s on a node's sequence" % name)
         if tr == "Kmer" and name == "is_palindrome":
+            k = recv(it, args[0])
+            if isinstance(k, Opaque) and "next" in k.tags:
+                return mkbool(str(self.neighbour(k.info["node"], k.info["side"])).startswith("P"))
+            if isinstance(k, Opaque) and "term" in k.tags:
+                return mkbool(str(k.info.get("node")).startswith("P"))
             return mkbool(False)
         if tr == "Kmer" and name in ("extend", "extend_left", "extend_right"):
             k = recv(it, args[0])
@@ -951,6 +967,8 @@ class ChainOracles(WalkOracles):
             if self.is_hairpin(x, d):
                 # the element's reverse complement follows it: the link arrives at the same side it left from
                 return some(Tup([Int(64, False, bits=[TOP] * 64, tags=frozenset({"id:" + x})), dir_v(d), mkbool(True)]))
+            if str(y).startswith("P"):
+                return some(Tup([Int(64, False, bits=[TOP] * 64, tags=frozenset({"id:" + y})), dir_v(flip(d)), mkbool(False)]))
             line_side = d if self.fwd[x] else flip(d)          # the side of the line the walk moves to
             s_in = self.stored_side(y, flip(line_side))
             return some(Tup([Int(64, False, bits=[TOP] * 64, tags=frozenset({"id:" + y})), dir_v(s_in), mkbool(s_in == d)]))
@@ -1030,7 +1048,7 @@ def graph_chain_table(F, rep, rule):
                     h.seq_path, "ring, cut at the seed," if h.ring else "line", " or ".join(str([(x, LEFT if h.fwd[x] else RIGHT) for x in pth]) for pth, _ in outcomes)), row))
                 continue
             npth, want_joins = match[0]
-            if not (want_joins <= set(h.joins) <= (want_joins | allowed)) or (not h.ring and "hp" not in h.ends and set(h.joins) != want_joins):
+            if not (want_joins <= set(h.joins) <= (want_joins | allowed)) or (not h.ring and "hp" not in h.ends and "pal" not in h.ends and set(h.joins) != want_joins):
                 bad = [j for j in h.joins if j not in (want_joins | allowed)] or [j for j in want_joins if j not in h.joins] or [j for j in h.joins if j not in want_joins]
                 problems.append(("the join predicate is asked about the payload pairs %s; required: once per link of the line, (payload of the node the walk stands on, "
                                  "payload of the node it wants to enter) = %s — first difference %s" % (h.joins, sorted(want_joins), bad[0]), row))
@@ -1083,7 +1101,7 @@ class KmerChainOracles(ChainOracles):
             return some(Ref(Cell(kmer_v("seed"), "seed")))
         if name == "get_kmer_data" or (name in ("get", "get_mut") and "BoomHashMap" in path):
             k = recv(it, args[1])
-            if kid(k) is None or kid(k)[0] not in self.setup():
+            if kid(k) is None or not self.known(kid(k)[0]):
                 raise Undecided("data look-up of a k-mer that is not on the scripted line (%r)" % (k,))
             if kid(k)[1]:
                 raise Undecided("data look-up by the reverse complement of a key")
@@ -1095,11 +1113,12 @@ class KmerChainOracles(ChainOracles):
             k = recv(it, args[1])
             if kid(k) is None:
                 raise Undecided("id look-up of an unknown k-mer %r" % (k,))
-            if kid(k)[1] or kid(k)[0] not in self.setup():
+            if kid(k)[1] or not self.known(kid(k)[0]):
                 return none()       # the reverse complement of a key is not a key
             return some(Int(64, False, bits=[TOP] * 64, tags=frozenset({"id:" + kid(k)[0]})))
         if tr == "Kmer" and name == "is_palindrome":
-            return mkbool(False)
+            k = recv(it, args[0])
+            return mkbool(bool(kid(k)) and str(kid(k)[0]).startswith("P"))
         if tr == "Kmer" and name in ("extend", "extend_left", "extend_right"):
             k = recv(it, args[0])
             d = dir_of(args[2]) if name == "extend" else (LEFT if name == "extend_left" else RIGHT)
@@ -1110,6 +1129,8 @@ class KmerChainOracles(ChainOracles):
                 y = self.neighbour(x, d)
                 if y is not None and self.is_hairpin(x, d):
                     return Opaque("K", {"kmer"}, {"k": x, "rc": True})      # the k-mer's own reverse complement follows it
+                if y is not None and str(y).startswith("P"):
+                    return Opaque("K", {"kmer"}, {"k": y, "rc": False})     # a palindrome is its own reverse complement
                 if y is not None:
                     # the neighbour as reached from x: its stored key, reverse-complemented when the two are stored in opposite orientations
                     return Opaque("K", {"kmer"}, {"k": y, "rc": self.fwd[x] != self.fwd[y]})
@@ -1196,7 +1217,7 @@ def kmer_chain_table(F, rep, rule):
                     got_seq, "ring, cut at the seed," if h.ring else "line", " or ".join(str(spelled(pth)) for pth, _ in outcomes)), row))
                 continue
             npth, want_joins = match[0]
-            if not (want_joins <= set(h.joins) <= (want_joins | allowed)) or (not h.ring and "hp" not in h.ends and set(h.joins) != want_joins):
+            if not (want_joins <= set(h.joins) <= (want_joins | allowed)) or (not h.ring and "hp" not in h.ends and "pal" not in h.ends and set(h.joins) != want_joins):
                 bad = [j for j in h.joins if j not in (want_joins | allowed)] or [j for j in want_joins if j not in h.joins] or [j for j in h.joins if j not in want_joins]
                 problems.append(("the join predicate is asked about the payload pairs %s; required: once per link of the line, (payload of the k-mer the walk stands on, "
                                  "payload of the k-mer it wants to enter) = %s — first difference %s" % (h.joins, sorted(want_joins), bad[0]), row))
